@@ -204,6 +204,45 @@ def sites(F, crate="bytecode"):
                     yield site
 
 
+def below_len_plus_constant(fn, s):
+    """`i + c` on usize cannot overflow where `i < len` of a list holds (a Vec never has more than isize::MAX elements) and c is a small constant:
+    the site is an AddWithOverflow(usize) of a constant below 2^62 and a value, and lies behind the in-range edge of a comparison of that very
+    value with a length."""
+    if not s["what"].startswith("AddWithOverflow(usize)"):
+        return False
+    b = fn.blocks[s["bb"]]
+    for st in b["s"]:
+        rv = st.get("rv") or {}
+        if rv.get("bin") != "AddWithOverflow":
+            continue
+        cl, cr = op_const(rv["l"]), op_const(rv["r"])
+        c = cl or cr
+        x = op_local(rv["r"] if cl else rv["l"])
+        if c is None or x is None or "int" not in c or not (0 <= int(c["int"]) < (1 << 62)):
+            return False
+        xchain = set(rules.chain_locals(fn, x)) | {x}
+        edges = set()
+        for bi, si, dst, rv2, st2 in fn.assigns():
+            if rv2.get("bin") not in ("Lt", "Le", "Gt", "Ge"):
+                continue
+            l, r = op_local(rv2["l"]), op_local(rv2["r"])
+            if l is None or r is None:
+                continue
+            kl, kr = rules.plain_chain(fn, l), rules.plain_chain(fn, r)
+            passing = None
+            if kl[0] == "value" and kr[0] == "len" and ((set(rules.chain_locals(fn, l)) | {l}) & xchain):
+                passing = {"Lt": True, "Ge": False}.get(rv2["bin"])
+            elif kl[0] == "len" and kr[0] == "value" and ((set(rules.chain_locals(fn, r)) | {r}) & xchain):
+                passing = {"Gt": True, "Le": False}.get(rv2["bin"])
+            if passing is None:
+                continue
+            for bb, t_t, f_t, pol in rules.bool_switches(fn, fn.derived([dst["l"]])):
+                if pol is not None:
+                    edges.add((bb, t_t if (pol == passing) else f_t))
+        return bool(edges) and s["bb"] not in fn.reachable(0, removed_edges=edges)
+    return False
+
+
 def inventory(F):
     out = []
     for s in sites(F):
@@ -215,6 +254,8 @@ def inventory(F):
                 break
         s["taint"] = why or s.get("container")
         s["guarded"] = bool(why) and s["kind"] in ("K2", "K3") and (len_guarded(f, s["bb"], s.get("idx")) or boundary_guarded(f, s["bb"], s.get("idx")))
+        if why and s["kind"] == "K1" and below_len_plus_constant(f, s):
+            s["guarded"] = True
         out.append(s)
     return out
 
